@@ -11,6 +11,7 @@ import os
 import re
 import subprocess
 import zoneinfo
+from zoneinfo import _zoneinfo as _pyzoneinfo   # pure-Python reader: the C accelerator segfaults on some generated TZif files
 
 from vt import HarnessError, REPO
 
@@ -135,8 +136,11 @@ class ZoneOracle:
         self.path = path
         self.name = name or os.path.basename(path)
         self.t0, self.t1 = t0, t1
-        with open(path, "rb") as f:
-            self.zi = zoneinfo.ZoneInfo.from_file(f, key=self.name)
+        try:
+            with open(path, "rb") as f:
+                self.zi = _pyzoneinfo.ZoneInfo.from_file(f, key=self.name)
+        except (IndexError, ValueError, KeyError) as e:
+            raise HarnessError("CPython zoneinfo cannot read zic's output for %s: %r" % (self.name, e))
         y0 = (dtm.datetime(2000, 1, 1) + dtm.timedelta(seconds=t0)).year - 1
         y1 = (dtm.datetime(2000, 1, 1) + dtm.timedelta(seconds=t1)).year + 2
         raw = zdump_transitions(path, y0, y1)
